@@ -54,6 +54,7 @@ def run(ctx):
     ctx.guard(r4, eff)
     ctx.guard(r5)
     ctx.guard(r6_assign)
+    ctx.guard(r7_shortcut)
     ctx.assume("saved-position statistics (Fiber._saved_*) are an accelerator; "
                "writes to them are not tree effects")
 
@@ -351,3 +352,37 @@ def r6_assign(ctx):
         else:
             ctx.ok("C03.R6", f, r, "every path to this return clears the old "
                    "content and copies the new one")
+
+
+# -- R7: a search-start shortcut never becomes an insertion position ---------------
+
+def r7_shortcut(ctx):
+    """getPayloadRef may start its search at `start_pos`, but a missing
+    element is inserted where the search *ended*: _create_payload is called
+    without `pos` (it searches itself) or with the result of _coord2pos for
+    that coordinate -- never with the caller's shortcut."""
+    f = ctx.method("Fiber", "getPayloadRef")
+    calls = [c for c in pat.calls(f, attr="_create_payload")]
+    ctx.require(calls, "C03.R7: getPayloadRef no longer inserts through _create_payload")
+    for c in calls:
+        pos = pat.kwarg(c, "pos", 2)
+        if pos is None:
+            ctx.ok("C03.R7", f, c, "insertion position left to _create_payload",
+                   text_="getPayloadRef insertion position")
+            continue
+        v = pos
+        if isinstance(v, ast.Name):
+            v = pat.single_def(ctx, f, v) or v
+        ok = isinstance(v, ast.Call) and isinstance(v.func, ast.Attribute) and \
+            v.func.attr == "_coord2pos" and v.args and c.args and \
+            text(v.args[0]) == text(c.args[0])
+        if ok:
+            ctx.ok("C03.R7", f, c, "insertion at the position the search returned",
+                   text_="getPayloadRef insertion position")
+        else:
+            ctx.bad("C03.R7", f, c, "getPayloadRef inserts a missing element at "
+                    "`%s`, which is not the result of the coordinate search: "
+                    "with a legal start_pos the element lands in front of "
+                    "smaller coordinates and later reads of untouched points "
+                    "return defaults" % text(pos),
+                    text_="getPayloadRef insertion position")
